@@ -1,19 +1,43 @@
 #![feature(allocator_api)]
-// Unit rtr_exchange (C06, exploratory): ONE data exchange between the RTR client (src/rtr/client.rs) and the
-// RTR server (src/rtr/server.rs), async-erased (R6), stated as contracts over ghost byte streams:
-//   * server write side  (`Connection::reset` / `Connection::serial`): the octets handed to the socket are
-//     cache response ++ one payload PDU per item the version carries, in source order ++ end of data
-//     (or exactly a cache reset when the source has no diff);
-//   * client read side   (`Client::reset` / `Client::serial`): whenever the call returns Ok, the octets taken
-//     from the socket parse (spec function `run`) as cache response ++ payload PDUs ++ end of data of ONE
-//     version, the `push_update` calls made on the update are exactly the items of those PDUs in order, the
-//     stored state is the state named in the end of data, the timing values are those of the end of data
-//     (version 0: unchanged); cache reset (serial only): state None, Ok(None); everything else: Err with state
-//     and timing untouched;
-//   * composition (spec level): `run` applied to the server's octets yields the source's item sequence
-//     restricted to the payload types the version carries (ASPA withdrawals keyed by customer AS).
-// The per-PDU facts come from unit pdu_read through contract links (//@stub) and from the Kani unit pdu_layout
-// (axioms in `xax`, each cross-referenced).
+// Unit rtr_exchange (C06, exploratory): ONE synchronisation step between the RTR client (src/rtr/client.rs) and
+// the RTR server (src/rtr/server.rs), async-erased (R6), stated as contracts over ghost byte streams.
+//
+//   server, sending side   Connection::reset / Connection::serial (+ version, check_version): the octets handed to
+//                          the socket in one call are `is_response`: cache response(version, state.session) ++ one
+//                          payload PDU `Payload::new(version, flags(action), item)` per source item the version
+//                          carries, in source order ++ end of data(version, state, timing); or exactly a cache reset
+//                          when the source has no diff.  The source (`PayloadSource`/`PayloadSet`/`PayloadDiff`,
+//                          user code behind traits) is a ghost model: ready flag, state, item sequence, timing.
+//   client, receiving side Client::reset / Client::serial (+ version, check_version, FirstSerialReply::read,
+//                          FirstResetReply::read, PayloadError::send): whenever the call returns Ok, the octets
+//                          taken from the socket are (optionally one "unsupported version" error PDU, then) a cache
+//                          response ++ payload PDUs ++ end of data, all of ONE version (spec function `run` =
+//                          the payload loop as a function of the stream), the `push_update` calls made on the update
+//                          are exactly `to_payload` of these PDUs in order, the stored state is the state named in
+//                          the end of data, the timing values are those of the end of data (version 0: unchanged).
+//                          Cache reset (serial only): state None, Ok(None).  Everything else: Err with state and
+//                          timing untouched.  Both loops terminate (negotiation: at most one downgrade; payload
+//                          loop: every PDU consumes octets of a finite stream).
+//                          Client::update / apply / step: serial with fallback to reset, or reset (`step_ok`), and the
+//                          update is handed to the target together with the stored timing values.
+//   composition            (module `comp`, specification level) `run` over the server's octets yields the source's
+//                          items restricted to the payload types the version carries, ASPA withdrawals compared by
+//                          customer AS (lemma_composition, _step, _fallback, _downgrade, lemma_expected_full); and,
+//                          reading payload sets as the property statement does (ASPA keyed by customer AS), applying
+//                          these items to the restricted previous set gives the restricted new set whenever the
+//                          source's sequence leads from the old set to the new one (lemma_restrict_apply).
+//
+// Per-PDU facts: unit pdu_read through contract links (//@stub: Header::{read,new,version,pdu,session,length},
+// Payload::read, Error::skip_payload, SerialNotify::read) and the Kani unit pdu_layout (axioms in `xax`, each
+// cross-referenced).  NOT covered here: Payload::new / Payload::to_payload / Error::new (stand-ins, see .trusted),
+// Client::try_io (tokio time-out wrapper: environment), Client::run, Connection::recv / run (select!, channels), the
+// content of the queries the client sends (the socket model of pdu_read does not frame `written` over reads), and
+// everything that quantifies over histories (what applying a diff to the previous data yields).
+//
+// Language idioms Verus 0.2026.09.13 does not handle, substituted under R12 (logged, listed in .trusted):
+// `let x = loop { .. break v .. }` (break with a value -> deferred initialisation + break), a match guard over two
+// arms with the same pattern in a function with a `&mut` parameter (Verus loses the final value of the parameter;
+// -> if/else inside one arm, same order of tests), `format!` for error texts, constructors as function values.
 use vstd::prelude::*;
 use vstd::std_specs::cmp::*;
 use std::{cmp, mem, slice};
@@ -46,9 +70,42 @@ pub mod xenv {
     pub fn io_timeout<T>(res: Result<T, io::Error>) -> (r: Result<T, io::Error>)
         ensures r is Ok ==> r == res,
     { unimplemented!() }
-    /// opaque stand-in for tokio::time::Instant
+    /// opaque stand-ins for tokio::time::Instant / std::time::Duration / tokio::time::error::Elapsed
     #[verifier::external_body]
+    #[derive(Clone, Copy)]
     pub struct Instant { _o: u8 }
+    #[verifier::external_body]
+    #[derive(Clone, Copy)]
+    pub struct Duration { _o: u8 }
+    #[verifier::external_body]
+    pub struct Elapsed { _o: u8 }
+    impl Duration {
+        /// std: `Duration::from_secs`
+        #[verifier::external_body]
+        pub fn from_secs(secs: u64) -> (r: Duration) { unimplemented!() }
+    }
+    impl Instant {
+        /// tokio: `Instant::now`
+        #[verifier::external_body]
+        pub fn now() -> (r: Instant) { unimplemented!() }
+    }
+    impl vstd::std_specs::ops::AddSpecImpl<Duration> for Instant {
+        open spec fn obeys_add_spec() -> bool { false }
+        open spec fn add_req(self, rhs: Duration) -> bool { true }
+        open spec fn add_spec(self, rhs: Duration) -> Instant { arbitrary() }
+    }
+    impl core::ops::Add<Duration> for Instant {
+        type Output = Instant;
+        /// tokio: `Instant + Duration` (saturating inside tokio; the value is only stored)
+        #[verifier::external_body]
+        fn add(self, d: Duration) -> (r: Instant) { unimplemented!() }
+    }
+    /// tokio `time::timeout_at(deadline, fut).await`, one future polled to completion (R6: the inner future has
+    /// already run when this is evaluated): either its result or Elapsed
+    #[verifier::external_body]
+    pub fn timeout_at<T>(deadline: Instant, res: T) -> (r: Result<T, Elapsed>)
+        ensures r matches Ok(x) ==> x == res,
+    { unimplemented!() }
     /// opaque stand-in for the tokio broadcast receiver wrapper of server.rs
     #[verifier::external_body]
     pub struct NotifyReceiver { _o: u8 }
@@ -170,6 +227,10 @@ pub mod payload {
     }
     pub open spec fn flags_of(a: Action) -> u8 { match a { Action::Announce => 1, Action::Withdraw => 0 } }
 
+    impl Timing {
+        //@fn src/rtr/payload.rs :: impl Timing :: refresh_duration
+        //@end
+    }
     impl Action {
         //@fn src/rtr/payload.rs :: impl Action :: into_flags
         //@spec
@@ -237,6 +298,7 @@ pub open spec fn eod_timing(e: EndOfData) -> Option<payload::Timing> {
 /// `k` = octets read so far.  Some((items, k')): after k' octets an end-of-data PDU of version `v` was complete
 /// and `items` were handed over; None: the loop cannot complete (wrong version, wrong type, wrong length,
 /// unacceptable item, stream too short).
+#[verifier::opaque]
 pub open spec fn run(s: Seq<u8>, v: u8, acc: Seq<Item>, k: int) -> Option<(Seq<Item>, int)>
     decreases s.len()
 {
@@ -271,6 +333,7 @@ pub open spec fn negotiated(s0: Seq<u8>, ver0: Option<u8>, v: u8) -> bool {
 
 /// A completed data exchange as the client sees it: `s0` = octets to come when the call starts, `n` = octets
 /// taken, `log` = the (action, item) pairs handed to the update, `st` = stored state afterwards.
+#[verifier::opaque]
 pub open spec fn exchange_ok(s0: Seq<u8>, ver0: Option<u8>, ver1: Option<u8>, n: int, log: Seq<Item>,
                              st: Option<State>, tm0: payload::Timing, tm1: payload::Timing) -> bool {
     let off = skip_len(s0);
@@ -324,12 +387,104 @@ pub open spec fn payload_done(s: Seq<u8>, v: u8, k: int, log: Seq<Item>, st: Opt
     &&& (v >= 1 ==> tm1 == wire_timing(s.subrange(k - eod_len(v), k)))
 }
 
+/// A completed synchronisation step (`Client::update` once the wait for a notification is over), `s` = octets
+/// to come: without a stored state a reset query answered with data; with a stored state a serial query answered
+/// with data, or a serial query answered with a cache reset followed by a reset query answered with data.
+/// `rs`: the update was started as a reset update (it replaces the target's data instead of amending it).
+pub open spec fn step_ok(s: Seq<u8>, st0: Option<State>, ver0: Option<u8>, ver1: Option<u8>, n: int, log: Seq<Item>, rs: bool,
+                         st1: Option<State>, tm0: payload::Timing, tm1: payload::Timing) -> bool {
+    ||| (exchange_ok(s, ver0, ver1, n, log, st1, tm0, tm1) && rs == (st0 is None))
+    ||| (st0 is Some && rs && {
+            let n1 = skip_len(s) + 8;
+            let verm = if skip_len(s) == 0 { ver0 } else { Some(s[0]) };
+            reset_reply(s, n1) && nego_inv(s, ver0, verm, skip_len(s)) && n1 <= s.len()
+            && exchange_ok(s.skip(n1), verm, ver1, n - n1, log, st1, tm0, tm1)
+        })
+}
+/// `step_ok` after the wait for a notification has taken `k` <= 12 octets (at most one serial notify)
+pub open spec fn update_ok(s0: Seq<u8>, st0: Option<State>, ver0: Option<u8>, ver1: Option<u8>, n: int, log: Seq<Item>, rs: bool,
+                           st1: Option<State>, tm0: payload::Timing, tm1: payload::Timing) -> bool {
+    exists|k: int| 0 <= k <= 12 && k <= s0.len() && #[trigger] step_ok(s0.skip(k), st0, ver0, ver1, n - k, log, rs, st1, tm0, tm1)
+}
 /// the serial query was answered by a cache reset
 pub open spec fn reset_reply(s0: Seq<u8>, n: int) -> bool {
     let off = skip_len(s0);
     let s1 = s0.skip(off);
     0 <= off && off + 8 <= s0.len() && s1[1] == 8 && wire_len(s1.take(8)) == 8 && n == off + 8
 }
+
+
+// ---- spec vocabulary of the server's sending side ----------------------------------------------------------
+/// which payload types a protocol version carries (`Payload::new_if_supported`)
+pub open spec fn supported(v: u8, it: ItemView) -> bool {
+    match it { ItemView::Origin { .. } => true, ItemView::RouterKey { .. } => v >= 1, ItemView::Aspa { .. } => v >= 2 }
+}
+/// the octets one source item contributes to a response of version `v`
+pub open spec fn piece(v: u8, it: Item) -> Seq<u8> {
+    if supported(v, it.1) { new_wire(v, payload::flags_of(it.0), it.1) } else { Seq::<u8>::empty() }
+}
+/// the payload section for a sequence of (action, item) pairs (a diff), in order
+pub open spec fn payload_bytes(v: u8, items: Seq<Item>) -> Seq<u8>
+    decreases items.len()
+{
+    if items.len() == 0 { Seq::<u8>::empty() } else { piece(v, items[0]) + payload_bytes(v, items.drop_first()) }
+}
+/// the payload section for a full data set: every item is announced
+pub open spec fn payload_bytes_full(v: u8, items: Seq<ItemView>) -> Seq<u8>
+    decreases items.len()
+{
+    if items.len() == 0 { Seq::<u8>::empty() } else { piece(v, (Action::Announce, items[0])) + payload_bytes_full(v, items.drop_first()) }
+}
+/// a full data set is a sequence of announcements
+pub open spec fn announce_all(items: Seq<ItemView>) -> Seq<Item> {
+    Seq::new(items.len(), |i: int| (Action::Announce, items[i]))
+}
+pub open spec fn is_cache_response(w: Seq<u8>, v: u8, session: u16) -> bool {
+    w.len() == 8 && w[0] == v && w[1] == 3 && be16(w.subrange(2, 4)) == session as int && wire_len(w) == 8
+}
+pub open spec fn is_cache_reset(w: Seq<u8>, v: u8) -> bool {
+    w.len() == 8 && w[0] == v && w[1] == 8 && be16(w.subrange(2, 4)) == 0 && wire_len(w) == 8
+}
+pub open spec fn is_end_of_data(w: Seq<u8>, v: u8, st: State, tm: payload::Timing) -> bool {
+    &&& w.len() == eod_len(v) && w[0] == v && w[1] == 7 && wire_len(w.take(8)) == eod_len(v)
+    &&& wire_state(w) == st
+    &&& (v >= 1 ==> wire_timing(w) == tm)
+}
+/// the octets of a complete response: cache response ++ payload section ++ end of data
+pub open spec fn is_response(w: Seq<u8>, v: u8, st: State, items: Seq<Item>, tm: payload::Timing) -> bool {
+    let p = payload_bytes(v, items);
+    &&& w.len() == 8 + p.len() + eod_len(v)
+    &&& is_cache_response(w.take(8), v, st.session)
+    &&& w.subrange(8, 8 + p.len() as int) == p
+    &&& is_end_of_data(w.skip(8 + p.len() as int), v, st, tm)
+}
+pub open spec fn eod_header(e: EndOfData) -> Header { match e { EndOfData::V0(x) => x.header, EndOfData::V1(x) => x.header } }
+
+
+/// type invariants of the Bytes-backed item parts (`ProviderAsns`: whole AS numbers, at most MAX_COUNT = 16380;
+/// `RouterKeyInfo`: bounded by `max_key_info_size`; `KeyIdentifier`: 20 octets)
+pub open spec fn wf_item(it: ItemView) -> bool {
+    match it {
+        ItemView::Origin { .. } => true,
+        ItemView::RouterKey { ki, asn, info } => ki.len() == 20 && 32 + info.len() <= u32::MAX,
+        ItemView::Aspa { customer, providers } => providers.len() % 4 == 0 && providers.len() <= 4 * 16380,
+    }
+}
+/// ASPA records are keyed by customer AS: a withdrawal is compared without its provider list
+pub open spec fn normal(x: Item) -> Item {
+    match x {
+        (Action::Withdraw, ItemView::Aspa { customer, providers }) => (Action::Withdraw, ItemView::Aspa { customer, providers: Seq::<u8>::empty() }),
+        _ => x,
+    }
+}
+/// what the client has to hand to its update for a source sequence: the items the version carries, in order
+pub open spec fn expected(v: u8, items: Seq<Item>) -> Seq<Item>
+    decreases items.len()
+{
+    if items.len() == 0 { Seq::<Item>::empty() }
+    else { (if supported(v, items[0].1) { seq![normal(items[0])] } else { Seq::<Item>::empty() }) + expected(v, items.drop_first()) }
+}
+pub open spec fn all_wf(items: Seq<Item>) -> bool { forall|i: int| 0 <= i < items.len() ==> wf_item((#[trigger] items[i]).1) }
 
 // =====================================================================================================
 // axioms and lemmas of this unit
@@ -345,6 +500,33 @@ pub mod xax {
             #[trigger] vstd::layout::size_of::<ResetQuery>() == 8,
             #[trigger] vstd::layout::size_of::<SerialQuery>() == 12,
     {}
+
+    /// Kani pdu_layout, (a)/(b) of every *_layout harness and pdu_payload_new_origin / pdu_router_key_new /
+    /// pdu_aspa_new: the PDU `Payload::new(v, flags, item)` builds starts with a header that carries the version,
+    /// a payload type (4/6 origin, 9 router key, 11 ASPA) and as length the number of octets `write` sends; that
+    /// length is one `Payload::read` accepts for the type.  (Router keys / ASPA: proved there for sample sizes of
+    /// the variable part only; `RouterKey::new` / `Aspa::new` length fields for all sizes are in unit pdu_read.)
+    #[verifier::external_body]
+    pub broadcast proof fn axiom_new_wire_header(v: u8, flags: u8, it: ItemView)
+        requires wf_item(it),
+        ensures ({
+            let w = #[trigger] new_wire(v, flags, it);
+            &&& w.len() >= 8 && w[0] == v && wire_len(w.take(8)) == w.len()
+            &&& payload_header_ok(w[1], v, w.len() as int) && w[1] != 7
+        }),
+    {}
+    /// Kani pdu_layout, per-PDU round trip `to_payload(new(v, flags(action), item)) == (action, item)`:
+    /// origins for every field combination (chain N/T/A/G: pdu_payload_new_origin, pdu_to_payload_v4/_v6,
+    /// pdu_action_flags, pdu_payload_origin_roundtrip_glue), router keys (pdu_payload_router_key_roundtrip, 4 key
+    /// octets), ASPA announcements (pdu_payload_aspa_announce_roundtrip, 0 and 2 providers) and ASPA withdrawals
+    /// with an empty provider list (pdu_payload_aspa_withdraw_empty_roundtrip).  KNOWN FINDING (C07,
+    /// pdu_payload_aspa_withdraw_roundtrip): an ASPA withdrawal comes back with an EMPTY provider list; the axiom
+    /// is therefore stated modulo `normal` (ASPA withdrawals are compared by customer AS only).
+    #[verifier::external_body]
+    pub broadcast proof fn axiom_roundtrip(v: u8, a: Action, it: ItemView)
+        requires supported(v, it), wf_item(it),
+        ensures item_of_wire(#[trigger] new_wire(v, payload::flags_of(a), it)) == Some(normal((a, it))),
+    {}
 }
 
 pub mod xlem {
@@ -356,9 +538,10 @@ pub mod xlem {
         assert(wire_cache_reset(x).take(8) =~= hwire(x.header));
     }
     /// the fields of an end-of-data value as seen in its octets
-    pub proof fn lemma_eod_wire(e: EndOfData)
+    pub broadcast proof fn lemma_eod_wire(e: EndOfData)
         ensures
-            wire_end_of_data(e).len() == (if e is V0 { 12int } else { 24int }),
+            (#[trigger] wire_end_of_data(e)).len() == (if e is V0 { 12int } else { 24int }),
+            wire_len(wire_end_of_data(e).take(8)) == hlen(eod_header(e)),
             wire_end_of_data(e)[1] == (match e { EndOfData::V0(x) => x.header.pdu, EndOfData::V1(x) => x.header.pdu }),
             wire_end_of_data(e)[0] == (match e { EndOfData::V0(x) => x.header.version, EndOfData::V1(x) => x.header.version }),
             wire_state(wire_end_of_data(e)) == eod_state(e),
@@ -366,6 +549,7 @@ pub mod xlem {
     {
         broadcast use {super::ax::axiom_mem16_len, super::ax::axiom_mem32_len, super::lem::lemma_hwire_fields};
         let w = wire_end_of_data(e);
+        assert(w.take(8) =~= hwire(eod_header(e)));
         match e {
             EndOfData::V0(x) => {
                 assert(w.subrange(2, 4) =~= hwire(x.header).subrange(2, 4));
@@ -379,6 +563,48 @@ pub mod xlem {
                 assert(w.subrange(20, 24) =~= mem32(x.expire));
             }
         }
+    }
+
+    /// one step of `run` over a payload PDU (`s` = octets to come, its first PDU has `n` octets and stands for `x`)
+    pub proof fn lemma_run_payload(s: Seq<u8>, v: u8, acc: Seq<Item>, k: int, x: Item)
+        requires
+            s.len() >= 8, s[0] == v, s[1] != 7, payload_header_ok(s[1], s[0], wire_len(s.take(8))), wire_len(s.take(8)) <= s.len(),
+            item_of_wire(s.take(wire_len(s.take(8)))) == Some(x),
+        ensures run(s, v, acc, k) == run(s.skip(wire_len(s.take(8))), v, acc.push(x), k + wire_len(s.take(8))),
+    {
+        reveal(run);
+    }
+    /// the last step of `run`: an end-of-data PDU of the right version
+    pub proof fn lemma_run_eod(s: Seq<u8>, v: u8, acc: Seq<Item>, k: int)
+        requires s.len() >= 8, s[1] == 7, payload_header_ok(s[1], s[0], wire_len(s.take(8))), wire_len(s.take(8)) <= s.len(),
+        ensures
+            s[0] == v ==> run(s, v, acc, k) == Some((acc, k + wire_len(s.take(8)))) && wire_len(s.take(8)) == eod_len(v),
+    {
+        reveal(run);
+    }
+    pub proof fn lemma_update_ok(k: int, s0: Seq<u8>, st0: Option<State>, ver0: Option<u8>, ver1: Option<u8>, n: int, log: Seq<Item>, rs: bool,
+                                 st1: Option<State>, tm0: payload::Timing, tm1: payload::Timing)
+        requires 0 <= k <= 12, k <= s0.len(), step_ok(s0.skip(k), st0, ver0, ver1, n - k, log, rs, st1, tm0, tm1),
+        ensures update_ok(s0, st0, ver0, ver1, n, log, rs, st1, tm0, tm1),
+    {}
+    /// a full data set written item by item is the diff that announces every item
+    pub proof fn lemma_full_is_announce(v: u8, items: Seq<ItemView>)
+        ensures payload_bytes_full(v, items) == payload_bytes(v, announce_all(items)),
+        decreases items.len(),
+    {
+        if items.len() > 0 {
+            lemma_full_is_announce(v, items.drop_first());
+            assert(announce_all(items).drop_first() =~= announce_all(items.drop_first()));
+        }
+    }
+    /// the pieces written one after the other form a response
+    pub proof fn lemma_response_assemble(w: Seq<u8>, c: Seq<u8>, p: Seq<u8>, e: Seq<u8>, v: u8, st: State, items: Seq<Item>, tm: payload::Timing)
+        requires w == c + p + e, is_cache_response(c, v, st.session), p == payload_bytes(v, items), is_end_of_data(e, v, st, tm),
+        ensures is_response(w, v, st, items, tm),
+    {
+        assert(w.take(8) =~= c);
+        assert(w.subrange(8, 8 + p.len() as int) =~= p);
+        assert(w.skip(8 + p.len() as int) =~= e);
     }
 }
 
@@ -598,6 +824,11 @@ impl Aspa {
     //@/spec
     //@end
 }
+impl SerialNotify {
+    //@stub pdu_read :: impl $type :: read
+    pub fn read(sock: &mut Sock) -> (r: Result<Self, io::Error>)
+    //@end
+}
 impl Payload {
     //@stub pdu_read :: impl Payload :: read
     pub fn read(sock: &mut Sock) -> (r: Result<Result<Option<Self>, EndOfData>, io::Error>)
@@ -676,6 +907,187 @@ impl EndOfData {
     //@/spec
     //@end
 }
+
+// ---- write side: constructors and writers used by the server ---------------------------------------------
+impl CacheResponse {
+    //@fn src/rtr/pdu.rs :: impl AsRef<[u8]> for $type :: as_ref external_body
+    //@spec
+        ensures r@ == wire_cache_response(*self),
+    //@/spec
+    //@end
+    //@fn src/rtr/pdu.rs :: impl CacheResponse :: new
+    //@spec
+        ensures r.header.version == version, r.header.pdu == 3, be16(mem16(r.header.session)) == state.session as int, hlen(r.header) == 8,
+    //@/spec
+    //@end
+    //@fn src/rtr/pdu.rs :: impl $type :: write nth=0
+    //@sigsub R6 "<A: AsyncWrite + Unpin>" ""
+    //@sigsub R6 "a: &mut A" "a: &mut Sock"
+    //@spec
+        ensures
+            advanced(*old(a), *final(a), 0),
+            r.is_ok() ==> final(a).written() == old(a).written() + wire_cache_response(*self),
+    //@/spec
+    //@end
+}
+impl CacheReset {
+    //@fn src/rtr/pdu.rs :: impl AsRef<[u8]> for $type :: as_ref external_body
+    //@spec
+        ensures r@ == wire_cache_reset(*self),
+    //@/spec
+    //@end
+    //@fn src/rtr/pdu.rs :: impl CacheReset :: new
+    //@spec
+        ensures r.header.version == version, r.header.pdu == 8, be16(mem16(r.header.session)) == 0, hlen(r.header) == 8,
+    //@/spec
+    //@end
+    //@fn src/rtr/pdu.rs :: impl $type :: write nth=0
+    //@sigsub R6 "<A: AsyncWrite + Unpin>" ""
+    //@sigsub R6 "a: &mut A" "a: &mut Sock"
+    //@spec
+        ensures
+            advanced(*old(a), *final(a), 0),
+            r.is_ok() ==> final(a).written() == old(a).written() + wire_cache_reset(*self),
+            r.is_ok() ==> final(a).written().skip(old(a).written().len() as int) =~= wire_cache_reset(*self),
+    //@/spec
+    //@end
+}
+impl Ipv4Prefix {
+    //@fn src/rtr/pdu.rs :: impl $type :: write nth=0
+    //@sigsub R6 "<A: AsyncWrite + Unpin>" ""
+    //@sigsub R6 "a: &mut A" "a: &mut Sock"
+    //@spec
+        ensures
+            advanced(*old(a), *final(a), 0),
+            r.is_ok() ==> final(a).written() == old(a).written() + wire_ipv4_prefix(*self),
+    //@/spec
+    //@end
+}
+impl Ipv6Prefix {
+    //@fn src/rtr/pdu.rs :: impl $type :: write nth=0
+    //@sigsub R6 "<A: AsyncWrite + Unpin>" ""
+    //@sigsub R6 "a: &mut A" "a: &mut Sock"
+    //@spec
+        ensures
+            advanced(*old(a), *final(a), 0),
+            r.is_ok() ==> final(a).written() == old(a).written() + wire_ipv6_prefix(*self),
+    //@/spec
+    //@end
+}
+impl RouterKeyInfo {
+    //@fn src/rtr/pdu.rs :: impl AsRef<[u8]> for RouterKeyInfo :: as_ref
+    //@spec
+        ensures r@ == self.0@,
+    //@/spec
+    //@end
+}
+impl ProviderAsns {
+    //@fn src/rtr/pdu.rs :: impl AsRef<[u8]> for ProviderAsns :: as_ref
+    //@spec
+        ensures r@ == self.0@,
+    //@/spec
+    //@end
+}
+impl RouterKey {
+    //@fn src/rtr/pdu.rs :: impl RouterKey :: write
+    //@sigsub R6 "<A: AsyncWrite + Unpin>" ""
+    //@sigsub R6 "a: &mut A" "a: &mut Sock"
+    //@spec
+        ensures
+            advanced(*old(a), *final(a), 0),
+            r.is_ok() ==> final(a).written() == old(a).written() + wire_router_key(*self),
+    //@/spec
+    //@end
+}
+impl Aspa {
+    //@fn src/rtr/pdu.rs :: impl Aspa :: write
+    //@sigsub R6 "<A: AsyncWrite + Unpin>" ""
+    //@sigsub R6 "a: &mut A" "a: &mut Sock"
+    //@spec
+        ensures
+            advanced(*old(a), *final(a), 0),
+            r.is_ok() ==> final(a).written() == old(a).written() + wire_aspa(*self),
+    //@/spec
+    //@end
+}
+impl Payload {
+    /// rpki-rs `Payload::new` (Kani unit pdu_layout: pdu_payload_new_origin, pdu_router_key_new, pdu_aspa_new and
+    /// the *_layout harnesses).  Not verified here; assumed: the octets of the PDU are a function of version,
+    /// flags and the content of the item.
+    #[verifier::external_body]
+    pub fn new(version: u8, flags: u8, payload: payload::PayloadRef) -> (r: Self)
+        ensures wire_payload(r) == new_wire(version, flags, payload::ref_view(payload)),
+    { unimplemented!() }
+    //@fn src/rtr/pdu.rs :: impl Payload :: new_if_supported
+    //@spec
+        ensures
+            match r {
+                Some(p) => supported(version, payload::ref_view(payload)) && wire_payload(p) == new_wire(version, flags, payload::ref_view(payload)),
+                None => !supported(version, payload::ref_view(payload)),
+            },
+    //@/spec
+    //@end
+    //@fn src/rtr/pdu.rs :: impl Payload :: write
+    //@sigsub R6 "<A: AsyncWrite + Unpin>" ""
+    //@sigsub R6 "a: &mut A" "a: &mut Sock"
+    //@spec
+        ensures
+            advanced(*old(a), *final(a), 0),
+            r.is_ok() ==> final(a).written() == old(a).written() + wire_payload(*self),
+    //@/spec
+    //@end
+}
+impl EndOfDataV0 {
+    //@item src/rtr/pdu.rs :: const PDU: u8 = 7 pubfields
+    //@fn src/rtr/pdu.rs :: impl AsRef<[u8]> for $type :: as_ref external_body
+    //@spec
+        ensures r@ == wire_end_of_data_v0(*self),
+    //@/spec
+    //@end
+    //@fn src/rtr/pdu.rs :: impl EndOfDataV0 :: new
+    //@spec
+        ensures r.header.version == 0, r.header.pdu == 7, hlen(r.header) == 12,
+            eod_state(EndOfData::V0(r)) == state,
+    //@/spec
+    //@end
+}
+impl EndOfDataV1 {
+    //@item src/rtr/pdu.rs :: const PDU: u8 = 7 pubfields
+    //@fn src/rtr/pdu.rs :: impl AsRef<[u8]> for $type :: as_ref external_body
+    //@spec
+        ensures r@ == wire_end_of_data_v1(*self),
+    //@/spec
+    //@end
+    //@fn src/rtr/pdu.rs :: impl EndOfDataV1 :: new
+    //@spec
+        ensures r.header.version == version, r.header.pdu == 7, hlen(r.header) == 24,
+            eod_state(EndOfData::V1(r)) == state, eod_timing(EndOfData::V1(r)) == Some(timing),
+    //@/spec
+    //@end
+}
+impl EndOfData {
+    //@fn src/rtr/pdu.rs :: impl EndOfData :: new
+    //@spec
+        ensures
+            eod_header(r).version == version, eod_header(r).pdu == 7, hlen(eod_header(r)) == eod_len(version),
+            version == 0 <==> r is V0, eod_state(r) == state, version != 0 ==> eod_timing(r) == Some(timing),
+    //@/spec
+    //@end
+    //@fn src/rtr/pdu.rs :: impl AsRef<[u8]> for EndOfData :: as_ref
+    //@spec
+        ensures r@ == wire_end_of_data(*self),
+    //@/spec
+    //@end
+    //@fn src/rtr/pdu.rs :: impl EndOfData :: write
+    //@sigsub R6 "<A: AsyncWrite + Unpin>" ""
+    //@sigsub R6 "a: &mut A" "a: &mut Sock"
+    //@spec
+        ensures
+            advanced(*old(a), *final(a), 0),
+            r.is_ok() ==> final(a).written() == old(a).written() + wire_end_of_data(*self),
+    //@/spec
+    //@end
+}
 } // mod pduf
 
 
@@ -696,18 +1108,22 @@ broadcast use {ax::axiom_mem16_len, ax::axiom_mem32_len, lem::lemma_advanced_tra
 //@item src/rtr/client.rs :: enum FirstResetReply
 
 /// `PayloadUpdate` (user code behind a trait): modelled by the ghost sequence of all `push_update` calls made
-/// on the value, in order, whatever their outcome
+/// on the value, in order, whatever their outcome, and by the `reset` flag it was started with
 pub trait PayloadUpdate: Sized {
     spec fn log(&self) -> Seq<Item>;
+    spec fn is_reset(&self) -> bool;
     fn push_update(&mut self, action: Action, payload: Payload) -> (r: Result<(), PayloadError>)
-        ensures final(self).log() == old(self).log().push((action, payload@));
+        ensures final(self).log() == old(self).log().push((action, payload@)), final(self).is_reset() == old(self).is_reset();
 }
-/// `PayloadTarget` (user code behind a trait): a fresh update has received nothing yet
+/// `PayloadTarget` (user code behind a trait): a fresh update has received nothing yet; the ghost sequence
+/// `applied` records every (reset flag, update log, timing) handed to `apply`
 pub trait PayloadTarget: Sized {
     type Update: PayloadUpdate;
+    spec fn applied(&self) -> Seq<(bool, Seq<Item>, Timing)>;
     fn start(&mut self, reset: bool) -> (r: Self::Update)
-        ensures r.log() == Seq::<Item>::empty();
-    fn apply(&mut self, update: Self::Update, timing: Timing) -> (r: Result<(), PayloadError>);
+        ensures r.log() == Seq::<Item>::empty(), r.is_reset() == reset, final(self).applied() == old(self).applied();
+    fn apply(&mut self, update: Self::Update, timing: Timing) -> (r: Result<(), PayloadError>)
+        ensures final(self).applied() == old(self).applied().push((update.is_reset(), update.log(), timing));
 }
 
 /// everything but the negotiated version is untouched
@@ -814,8 +1230,8 @@ impl<Target: PayloadTarget> Client<Sock, Target> {
     //@spec
         ensures
             advanced(old(self).sock, final(self).sock, taken(old(self).sock, final(self).sock)),
-            final(self).initial_version == old(self).initial_version,
-            r matches Ok(upd) ==> exchange_ok(old(self).sock.stream(), old(self).version, final(self).version,
+            final(self).initial_version == old(self).initial_version, final(self).target.applied() == old(self).target.applied(),
+            r matches Ok(upd) ==> upd.is_reset() && exchange_ok(old(self).sock.stream(), old(self).version, final(self).version,
                 taken(old(self).sock, final(self).sock), upd.log(), final(self).state, old(self).timing, final(self).timing),
             r is Err ==> final(self).state == old(self).state && final(self).timing == old(self).timing,
     //@/spec
@@ -825,6 +1241,7 @@ impl<Target: PayloadTarget> Client<Sock, Target> {
             invariant
                 advanced(old(self).sock, self.sock, taken(old(self).sock, self.sock)),
                 self.state == old(self).state, self.timing == old(self).timing, self.initial_version == old(self).initial_version,
+                self.target == old(self).target,
             ensures
                 resp_read(old(self).sock.stream(), old(self).version, self.version, taken(old(self).sock, self.sock), start.header.version),
             decreases (if self.version is Some { 0int } else { 1int }),
@@ -842,6 +1259,7 @@ impl<Target: PayloadTarget> Client<Sock, Target> {
                 run(pre.stream(), v, Seq::<Item>::empty(), 0) == run(self.sock.stream(), v, target.log(), taken(pre, self.sock)),
             invariant
                 self.version == Some(v), self.initial_version == old(self).initial_version,
+                self.target.applied() == old(self).target.applied(), target.is_reset() == true,
                 advanced(old(self).sock, pre, taken(old(self).sock, pre)),
                 advanced(pre, self.sock, taken(pre, self.sock)),
             ensures
@@ -851,12 +1269,23 @@ impl<Target: PayloadTarget> Client<Sock, Target> {
     //@ghost after "loop {" nth=1
             let ghost c = self.sock;
     //@/ghost
-    //@ghost before "self.state = Some(end.state());"
+    //@ghost after "};" nth=1
+                    proof { xlem::lemma_run_payload(c.stream(), v, target.log(), taken(pre, c), (action, payload@)); }
+    //@/ghost
+    //@ghost after "Err(end) => {"
                     proof {
                         xlem::lemma_eod_wire(end);
                         let k = taken(pre, c); let n = wire_len(c.stream().take(8));
                         assert(pre.stream().subrange(k, k + n) =~= c.stream().take(n));
+                        xlem::lemma_run_eod(c.stream(), v, target.log(), k);
                     }
+    //@/ghost
+    //@ghost before "Ok(target)"
+        proof {
+            reveal(exchange_ok);
+            assert(exchange_ok(old(self).sock.stream(), old(self).version, self.version,
+                taken(old(self).sock, self.sock), target.log(), self.state, old(self).timing, self.timing));
+        }
     //@/ghost
     //@end
 
@@ -867,8 +1296,8 @@ impl<Target: PayloadTarget> Client<Sock, Target> {
     //@spec
         ensures
             advanced(old(self).sock, final(self).sock, taken(old(self).sock, final(self).sock)),
-            final(self).initial_version == old(self).initial_version,
-            r matches Ok(Some(upd)) ==> exchange_ok(old(self).sock.stream(), old(self).version, final(self).version,
+            final(self).initial_version == old(self).initial_version, final(self).target.applied() == old(self).target.applied(),
+            r matches Ok(Some(upd)) ==> !upd.is_reset() && exchange_ok(old(self).sock.stream(), old(self).version, final(self).version,
                 taken(old(self).sock, final(self).sock), upd.log(), final(self).state, old(self).timing, final(self).timing),
             r matches Ok(None) ==> reset_reply(old(self).sock.stream(), taken(old(self).sock, final(self).sock))
                 && final(self).state is None && final(self).timing == old(self).timing
@@ -881,6 +1310,7 @@ impl<Target: PayloadTarget> Client<Sock, Target> {
             invariant
                 advanced(old(self).sock, self.sock, taken(old(self).sock, self.sock)),
                 self.state == old(self).state, self.timing == old(self).timing, self.initial_version == old(self).initial_version,
+                self.target == old(self).target,
             ensures
                 resp_read(old(self).sock.stream(), old(self).version, self.version, taken(old(self).sock, self.sock), start.header.version),
             decreases (if self.version is Some { 0int } else { 1int }),
@@ -898,6 +1328,7 @@ impl<Target: PayloadTarget> Client<Sock, Target> {
                 run(pre.stream(), v, Seq::<Item>::empty(), 0) == run(self.sock.stream(), v, target.log(), taken(pre, self.sock)),
             invariant
                 self.version == Some(v), self.initial_version == old(self).initial_version,
+                self.target.applied() == old(self).target.applied(), target.is_reset() == false,
                 advanced(old(self).sock, pre, taken(old(self).sock, pre)),
                 advanced(pre, self.sock, taken(pre, self.sock)),
             ensures
@@ -907,16 +1338,592 @@ impl<Target: PayloadTarget> Client<Sock, Target> {
     //@ghost after "loop {" nth=1
             let ghost c = self.sock;
     //@/ghost
-    //@ghost before "self.state = Some(end.state());"
+    //@ghost after "};" nth=1
+                    proof { xlem::lemma_run_payload(c.stream(), v, target.log(), taken(pre, c), (action, payload@)); }
+    //@/ghost
+    //@ghost after "Err(end) => {"
                     proof {
                         xlem::lemma_eod_wire(end);
                         let k = taken(pre, c); let n = wire_len(c.stream().take(8));
                         assert(pre.stream().subrange(k, k + n) =~= c.stream().take(n));
+                        xlem::lemma_run_eod(c.stream(), v, target.log(), k);
                     }
     //@/ghost
+    //@ghost before "Ok(Some(target))"
+        proof {
+            reveal(exchange_ok);
+            assert(exchange_ok(old(self).sock.stream(), old(self).version, self.version,
+                taken(old(self).sock, self.sock), target.log(), self.state, old(self).timing, self.timing));
+        }
+    //@/ghost
+    //@end
+
+    //@fn src/rtr/client.rs :: impl<Sock, Target> Client<Sock, Target> :: send_error
+    //@spec
+        ensures
+            advanced(old(self).sock, final(self).sock, 0),
+            final(self).target == old(self).target, final(self).state == old(self).state, final(self).timing == old(self).timing,
+            final(self).version == old(self).version, final(self).initial_version == old(self).initial_version,
+    //@/spec
+    //@end
+
+    /// hands the update and the stored timing values to the target
+    //@fn src/rtr/client.rs :: impl<Sock, Target> Client<Sock, Target> :: apply
+    //@spec
+        ensures
+            advanced(old(self).sock, final(self).sock, 0),
+            final(self).state == old(self).state, final(self).timing == old(self).timing,
+            final(self).version == old(self).version, final(self).initial_version == old(self).initial_version,
+            final(self).target.applied() == old(self).target.applied().push((update.is_reset(), update.log(), old(self).timing)),
+    //@/spec
+    //@end
+
+    /// serial query with fallback to reset, or reset.  The wait for a serial notify in front of it is a matter of
+    /// time (tokio `timeout_at`); under R6 it may have taken up to one serial notify (12 octets) from the stream.
+    //@fn src/rtr/client.rs :: impl<Sock, Target> Client<Sock, Target> :: update
+    //@spec
+        ensures
+            advanced(old(self).sock, final(self).sock, taken(old(self).sock, final(self).sock)),
+            final(self).initial_version == old(self).initial_version, final(self).target.applied() == old(self).target.applied(),
+            r matches Ok(upd) ==> update_ok(old(self).sock.stream(), old(self).state, old(self).version, final(self).version,
+                    taken(old(self).sock, final(self).sock), upd.log(), upd.is_reset(), final(self).state, old(self).timing, final(self).timing),
+    //@/spec
+    //@ghost before "if let Some(state) = self.state {"
+        let ghost s_n = self.sock;
+        let ghost k = taken(old(self).sock, s_n);
+        proof { assert(s_n.stream() == old(self).sock.stream().skip(k)); assert(0 <= k <= 12 && k <= old(self).sock.stream().len()); }
+    //@/ghost
+    //@ghost before "return Ok(update)"
+                proof {
+                    xlem::lemma_update_ok(k, old(self).sock.stream(), old(self).state, old(self).version, self.version,
+                        taken(old(self).sock, self.sock), update.log(), update.is_reset(), self.state, old(self).timing, self.timing);
+                }
+    //@/ghost
+    //@ghost before "let res = self.reset().await;"
+        let ghost s_m = self.sock;
+        let ghost verm = self.version;
+    //@/ghost
+    //@ghost before "res\n"
+        proof {
+            if let Ok(ref u) = res {
+                let s = old(self).sock.stream().skip(k);
+                let n = taken(old(self).sock, self.sock) - k;
+                if old(self).state is Some {
+                    let n1 = taken(s_n, s_m);
+                    assert(s_m.stream() == s.skip(n1));
+                    assert(n - n1 == taken(s_m, self.sock));
+                }
+                xlem::lemma_update_ok(k, old(self).sock.stream(), old(self).state, old(self).version, self.version,
+                    taken(old(self).sock, self.sock), u.log(), u.is_reset(), self.state, old(self).timing, self.timing);
+            }
+        }
+    //@/ghost
+    //@end
+
+    /// one synchronisation step: what `update` obtained is handed to the target together with the timing values
+    //@fn src/rtr/client.rs :: impl<Sock, Target> Client<Sock, Target> :: step
+    //@spec
+        ensures
+            advanced(old(self).sock, final(self).sock, taken(old(self).sock, final(self).sock)),
+            r is Ok ==> final(self).target.applied().len() == old(self).target.applied().len() + 1
+                && final(self).target.applied().drop_last() == old(self).target.applied()
+                && final(self).target.applied().last().2 == final(self).timing
+                && update_ok(old(self).sock.stream(), old(self).state, old(self).version, final(self).version,
+                    taken(old(self).sock, final(self).sock), final(self).target.applied().last().1, final(self).target.applied().last().0,
+                    final(self).state, old(self).timing, final(self).timing),
+    //@/spec
     //@end
 }
 } // mod client
+
+
+// =====================================================================================================
+// src/rtr/server.rs
+// =====================================================================================================
+pub mod server {
+use super::*; use super::env::*;
+use super::payload::{Action, PayloadRef, Timing};
+use super::pdu;
+use super::state::State;
+broadcast use {ax::axiom_mem16_len, ax::axiom_mem32_len, lem::lemma_advanced_trans, lem::lemma_advanced_refl, lem::lemma_hwire_fields, lem::lemma_wire_cache_response, xlem::lemma_wire_cache_reset, xlem::lemma_eod_wire};
+
+//@item src/rtr/server.rs :: pub const MAX_VERSION: u8 = 2
+//@item src/rtr/server.rs :: const MAX_VERSION_ERROR: &str sub "&str" "&'static str"
+//@item src/rtr/server.rs :: struct Connection<Sock, Source> pubfields
+//@item src/rtr/server.rs :: enum Query
+
+/// `PayloadSet` (user code behind a trait): an iterator over a full data set, modelled by the ghost sequence
+/// of the items it still yields
+pub trait PayloadSet: Sized {
+    spec fn remaining(&self) -> Seq<ItemView>;
+    fn next(&mut self) -> (r: Option<PayloadRef<'_>>)
+        ensures
+            match r {
+                Some(p) => old(self).remaining().len() > 0 && payload::ref_view(p) == old(self).remaining()[0]
+                    && final(self).remaining() == old(self).remaining().drop_first(),
+                None => old(self).remaining().len() == 0 && final(self).remaining() == old(self).remaining(),
+            };
+}
+/// `PayloadDiff` (user code behind a trait): an iterator over a diff, same model with actions
+pub trait PayloadDiff: Sized {
+    spec fn remaining(&self) -> Seq<Item>;
+    fn next(&mut self) -> (r: Option<(PayloadRef<'_>, Action)>)
+        ensures
+            match r {
+                Some(p) => old(self).remaining().len() > 0 && (p.1, payload::ref_view(p.0)) == old(self).remaining()[0]
+                    && final(self).remaining() == old(self).remaining().drop_first(),
+                None => old(self).remaining().len() == 0 && final(self).remaining() == old(self).remaining(),
+            };
+}
+/// `PayloadSource` (user code behind a trait): what the source reports, as ghost values
+pub trait PayloadSource: Sized {
+    type Set: PayloadSet;
+    type Diff: PayloadDiff;
+    spec fn spec_ready(&self) -> bool;
+    spec fn spec_full(&self) -> (State, Seq<ItemView>);
+    spec fn spec_diff(&self, state: State) -> Option<(State, Seq<Item>)>;
+    spec fn spec_timing(&self) -> Timing;
+    fn ready(&self) -> (r: bool) ensures r == self.spec_ready();
+    fn full(&self) -> (r: (State, Self::Set))
+        ensures r.0 == self.spec_full().0, r.1.remaining() == self.spec_full().1;
+    fn diff(&self, state: State) -> (r: Option<(State, Self::Diff)>)
+        ensures
+            match r {
+                Some(d) => self.spec_diff(state) == Some((d.0, d.1.remaining())),
+                None => self.spec_diff(state) is None,
+            };
+    fn timing(&self) -> (r: Timing) ensures r == self.spec_timing();
+}
+
+/// the version a connection answers with
+pub open spec fn conn_version(v: Option<u8>) -> u8 { match v { Some(x) => x, None => 0 } }
+
+impl<Source: PayloadSource> Connection<Sock, Source> {
+    //@fn src/rtr/server.rs :: impl<Sock, Source> Connection<Sock, Source> :: version
+    //@spec
+        ensures r == conn_version(self.version),
+    //@/spec
+    //@end
+
+    //@fn src/rtr/server.rs :: impl<Sock, Source> Connection<Sock, Source> :: check_version
+    //@spec
+        ensures
+            final(self).sock == old(self).sock, final(self).source == old(self).source,
+            r is Ok <==> (match old(self).version { Some(c) => c == header.version, None => header.version <= 2 }),
+            r is Ok ==> final(self).version == Some(header.version),
+            r is Err ==> final(self).version == old(self).version,
+    //@/spec
+    //@end
+
+    //@fn src/rtr/server.rs :: impl<Sock: Socket, Source: PayloadSource> Connection<Sock, Source> :: reset
+    //@spec
+        ensures
+            final(self).version == old(self).version, final(self).source == old(self).source,
+            advanced(old(self).sock, final(self).sock, 0),
+            // what was handed to the socket in this call is one complete response for the full data set
+            old(self).source.spec_ready() && r is Ok ==> {
+                let w = final(self).sock.written().skip(old(self).sock.written().len() as int);
+                &&& final(self).sock.written() =~= old(self).sock.written() + w
+                &&& is_response(w, conn_version(old(self).version), old(self).source.spec_full().0,
+                                announce_all(old(self).source.spec_full().1), old(self).source.spec_timing())
+            },
+    //@/spec
+    //@ghost before "while let Some(payload) = iter.next() {"
+        let ghost v = conn_version(self.version);
+        let ghost w0 = old(self).sock.written();
+        let ghost crw = self.sock.written().skip(w0.len() as int);
+        let ghost allv = self.source.spec_full().1;
+        proof { assert(self.sock.written() =~= w0 + crw); }
+    //@/ghost
+    //@loop "while let Some(payload) = iter.next()"
+            invariant
+                self.version == old(self).version, self.source == old(self).source, v == conn_version(self.version),
+                advanced(old(self).sock, self.sock, 0),
+                self.sock.written() + payload_bytes_full(v, iter.remaining()) =~= w0 + crw + payload_bytes_full(v, allv),
+            ensures
+                iter.remaining().len() == 0,
+            decreases iter.remaining().len(),
+    //@/loop
+    //@ghost before "let timing = self.source.timing();"
+        let ghost wp = self.sock.written();
+    //@/ghost
+    //@ghost before "Ok(())"
+        proof {
+            let p = payload_bytes_full(v, allv);
+            let eodw = self.sock.written().skip(wp.len() as int);
+            xlem::lemma_full_is_announce(v, allv);
+            assert(wp =~= w0 + crw + p);
+            xlem::lemma_response_assemble(crw + p + eodw, crw, p, eodw, v, state, announce_all(allv), timing);
+            assert(self.sock.written() =~= w0 + (crw + p + eodw));
+            assert(self.sock.written().skip(w0.len() as int) =~= crw + p + eodw);
+        }
+    //@/ghost
+    //@end
+
+    //@fn src/rtr/server.rs :: impl<Sock: Socket, Source: PayloadSource> Connection<Sock, Source> :: serial
+    //@spec
+        ensures
+            final(self).version == old(self).version, final(self).source == old(self).source,
+            advanced(old(self).sock, final(self).sock, 0),
+            // what was handed to the socket in this call is one complete response for the diff the source
+            // reports for the client's state, or exactly a cache reset when it has none
+            old(self).source.spec_ready() && r is Ok ==> {
+                let w = final(self).sock.written().skip(old(self).sock.written().len() as int);
+                &&& final(self).sock.written() =~= old(self).sock.written() + w
+                &&& match old(self).source.spec_diff(state) {
+                        Some(d) => is_response(w, conn_version(old(self).version), d.0, d.1, old(self).source.spec_timing()),
+                        None => is_cache_reset(w, conn_version(old(self).version)),
+                    }
+            },
+    //@/spec
+    //@ghost before "while let Some((payload, action)) = diff.next() {"
+                let ghost v = conn_version(self.version);
+                let ghost w0 = old(self).sock.written();
+                let ghost crw = self.sock.written().skip(w0.len() as int);
+                let ghost alld = diff.remaining();
+                proof { assert(self.sock.written() =~= w0 + crw); }
+    //@/ghost
+    //@loop "while let Some((payload, action)) = diff.next()"
+                    invariant
+                        self.version == old(self).version, self.source == old(self).source, v == conn_version(self.version),
+                        advanced(old(self).sock, self.sock, 0),
+                        self.sock.written() + payload_bytes(v, diff.remaining()) =~= w0 + crw + payload_bytes(v, alld),
+                    ensures
+                        diff.remaining().len() == 0,
+                    decreases diff.remaining().len(),
+    //@/loop
+    //@ghost before "let timing = self.source.timing();"
+                let ghost wp = self.sock.written();
+    //@/ghost
+    //@ghost before "Ok(())"
+                proof {
+                    let p = payload_bytes(v, alld);
+                    let eodw = self.sock.written().skip(wp.len() as int);
+                    assert(wp =~= w0 + crw + p);
+                    xlem::lemma_response_assemble(crw + p + eodw, crw, p, eodw, v, state, alld, timing);
+                    assert(self.sock.written() =~= w0 + (crw + p + eodw));
+                    assert(self.sock.written().skip(w0.len() as int) =~= crw + p + eodw);
+                }
+    //@/ghost
+    //@end
+}
+} // mod server
+
+
+// =====================================================================================================
+// composition (specification level): the client's reading of the server's octets
+// =====================================================================================================
+pub mod comp {
+use super::*; use super::env::*;
+use super::payload::Timing;
+
+/// the client's payload loop over the server's payload section: exactly the items the version carries
+pub proof fn lemma_run_payload_bytes(v: u8, items: Seq<Item>, tail: Seq<u8>, acc: Seq<Item>, k: int)
+    requires all_wf(items),
+    ensures run(payload_bytes(v, items) + tail, v, acc, k) == run(tail, v, acc + expected(v, items), k + payload_bytes(v, items).len()),
+    decreases items.len(),
+{
+    if items.len() == 0 {
+        assert(payload_bytes(v, items) + tail =~= tail);
+        assert(acc + expected(v, items) =~= acc);
+    } else {
+        let x = items[0]; let rest = items.drop_first();
+        assert(all_wf(rest)) by { assert forall|i: int| 0 <= i < rest.len() implies wf_item((#[trigger] rest[i]).1) by { assert(rest[i] == items[i + 1]); } }
+        let pr = payload_bytes(v, rest);
+        if !supported(v, x.1) {
+            assert(payload_bytes(v, items) =~= pr);
+            assert(expected(v, items) =~= expected(v, rest));
+            lemma_run_payload_bytes(v, rest, tail, acc, k);
+        } else {
+            let w = new_wire(v, payload::flags_of(x.0), x.1);
+            xax::axiom_new_wire_header(v, payload::flags_of(x.0), x.1);
+            xax::axiom_roundtrip(v, x.0, x.1);
+            let s = payload_bytes(v, items) + tail;
+            let n = w.len() as int;
+            assert(payload_bytes(v, items) == w + pr);
+            assert(s =~= w + (pr + tail));
+            assert(s.take(8) =~= w.take(8));
+            assert(wire_len(s.take(8)) == n);
+            assert(s.take(n) =~= w);
+            assert(s.skip(n) =~= pr + tail);
+            assert(s[0] == w[0] && s[1] == w[1]);
+            xlem::lemma_run_payload(s, v, acc, k, normal(x));
+            lemma_run_payload_bytes(v, rest, tail, acc.push(normal(x)), k + n);
+            assert(expected(v, items) == seq![normal(x)] + expected(v, rest));
+            assert(acc.push(normal(x)) + expected(v, rest) =~= acc + expected(v, items));
+            assert(payload_bytes(v, items).len() == n + pr.len());
+        }
+    }
+}
+
+/// the client's loop function over a stream that begins with a server response: it completes exactly at the end
+/// of the response, with the source's items restricted to the version, and the end-of-data octets carry the
+/// source's state and timing
+pub proof fn lemma_response_run(s1: Seq<u8>, w: Seq<u8>, rest: Seq<u8>, v: u8, st: State, items: Seq<Item>, tm: Timing)
+    requires s1 == w + rest, is_response(w, v, st, items, tm), v <= 2, all_wf(items),
+    ensures ({
+        let k = w.len() - 8;
+        let e = s1.skip(8).subrange(k - eod_len(v), k);
+        &&& s1.len() >= 8 && s1[0] == v && s1[1] == 3 && wire_len(s1.take(8)) == 8
+        &&& run(s1.skip(8), v, Seq::<Item>::empty(), 0) == Some((expected(v, items), k))
+        &&& k >= eod_len(v) && wire_state(e) == st && (v >= 1 ==> wire_timing(e) == tm)
+    }),
+{
+    let p = payload_bytes(v, items);
+    let e = w.skip(8 + p.len() as int);
+    assert(s1[1] == w[1] && s1[0] == w[0]);
+    assert(w.take(8)[1] == w[1] && w.take(8)[0] == w[0]);
+    assert(s1.take(8) =~= w.take(8));
+    assert(s1.skip(8) =~= p + (e + rest)) by {
+        assert(w =~= w.take(8) + w.subrange(8, 8 + p.len() as int) + e);
+    }
+    lemma_run_payload_bytes(v, items, e + rest, Seq::<Item>::empty(), 0);
+    assert(Seq::<Item>::empty() + expected(v, items) =~= expected(v, items));
+    let t = e + rest;
+    assert(t.take(8) =~= e.take(8));
+    assert(t[0] == e[0] && t[1] == e[1]);
+    let k = p.len() as int + eod_len(v);
+    assert(wire_len(t.take(8)) == eod_len(v));
+    xlem::lemma_run_eod(t, v, expected(v, items), p.len() as int);
+    assert(run(t, v, expected(v, items), p.len() as int) == Some((expected(v, items), k)));
+    assert(s1.skip(8).subrange(k - eod_len(v), k) =~= e);
+}
+
+/// COMPOSITION.  If the octets the client reads begin with a response `w` the server wrote for state `st`,
+/// items `items` and timing `tm` at version `v` (server contract `is_response`), then the client's contract for a
+/// completed exchange (`exchange_ok`) pins everything down: the version is `v`, exactly `w` was consumed, the
+/// update received the source's items restricted to the types `v` carries (ASPA withdrawals by customer AS),
+/// the stored state is `st`, and from version 1 on the timing values are the source's.
+pub proof fn lemma_composition(s0: Seq<u8>, w: Seq<u8>, rest: Seq<u8>, v: u8, st: State, items: Seq<Item>, tm: Timing,
+                               ver0: Option<u8>, ver1: Option<u8>, n: int, log: Seq<Item>, st1: Option<State>, tm0: Timing, tm1: Timing)
+    requires
+        s0 == w + rest, is_response(w, v, st, items, tm), v <= 2, all_wf(items),
+        exchange_ok(s0, ver0, ver1, n, log, st1, tm0, tm1),
+    ensures
+        ver1 == Some(v), n == w.len(), log == expected(v, items), st1 == Some(st),
+        v >= 1 ==> tm1 == tm, v == 0 ==> tm1 == tm0,
+        ver0 matches Some(x) ==> x == v,
+{
+    reveal(exchange_ok);
+    assert(s0[1] == w[1] && w.take(8)[1] == w[1]);
+    assert(skip_len(s0) == 0);
+    assert(s0.skip(0) =~= s0);
+    lemma_response_run(s0, w, rest, v, st, items, tm);
+}
+
+/// DOWNGRADE.  The first query is answered by an "unsupported protocol version" error PDU `ep`, the repeated
+/// query by a response `w` at version `v`: a completed exchange then means that no version was stored before,
+/// that the error PDU named exactly the version `v` (< 2) of the response, and the conclusions of
+/// `lemma_composition` hold at that lower version.
+pub proof fn lemma_composition_downgrade(s0: Seq<u8>, ep: Seq<u8>, w: Seq<u8>, rest: Seq<u8>, v: u8, st: State, items: Seq<Item>, tm: Timing,
+                                         ver0: Option<u8>, ver1: Option<u8>, n: int, log: Seq<Item>, st1: Option<State>, tm0: Timing, tm1: Timing)
+    requires
+        s0 == ep + (w + rest), ep.len() >= 8, ep[1] == 10, wire_len(ep.take(8)) == ep.len(),
+        is_response(w, v, st, items, tm), v <= 2, all_wf(items),
+        exchange_ok(s0, ver0, ver1, n, log, st1, tm0, tm1),
+    ensures
+        ver0 is None, ep[0] == v, v < 2, be16(ep.subrange(2, 4)) == 4,
+        ver1 == Some(v), n == ep.len() + w.len(), log == expected(v, items), st1 == Some(st),
+        v >= 1 ==> tm1 == tm, v == 0 ==> tm1 == tm0,
+{
+    reveal(exchange_ok);
+    assert(s0.take(8) =~= ep.take(8));
+    assert(s0[1] == ep[1] && s0[0] == ep[0]);
+    assert(skip_len(s0) == ep.len());
+    assert(s0.skip(ep.len() as int) =~= w + rest);
+    assert(s0.subrange(2, 4) =~= ep.subrange(2, 4));
+    lemma_response_run(w + rest, w, rest, v, st, items, tm);
+}
+
+/// a cache reset is never taken for a completed exchange, and it is consumed entirely
+pub proof fn lemma_composition_reset(s0: Seq<u8>, w: Seq<u8>, rest: Seq<u8>, v: u8, n: int)
+    requires s0 == w + rest, is_cache_reset(w, v),
+    ensures
+        reset_reply(s0, n) ==> n == 8,
+        forall|ver0: Option<u8>, ver1: Option<u8>, m: int, log: Seq<Item>, st1: Option<State>, tm0: Timing, tm1: Timing|
+            !exchange_ok(s0, ver0, ver1, m, log, st1, tm0, tm1),
+{
+    reveal(exchange_ok);
+    assert(s0[1] == w[1]);
+    assert(skip_len(s0) == 0);
+    assert(s0.skip(0) =~= s0);
+}
+
+/// a synchronisation step that starts directly with a response: same conclusions, and the update is a reset
+/// update exactly when the client had no state
+pub proof fn lemma_composition_step(s: Seq<u8>, w: Seq<u8>, rest: Seq<u8>, v: u8, st: State, items: Seq<Item>, tm: Timing,
+                                    st0: Option<State>, ver0: Option<u8>, ver1: Option<u8>, n: int, log: Seq<Item>, rs: bool,
+                                    st1: Option<State>, tm0: Timing, tm1: Timing)
+    requires
+        s == w + rest, is_response(w, v, st, items, tm), v <= 2, all_wf(items),
+        step_ok(s, st0, ver0, ver1, n, log, rs, st1, tm0, tm1),
+    ensures
+        ver1 == Some(v), n == w.len(), log == expected(v, items), st1 == Some(st), rs == (st0 is None),
+        v >= 1 ==> tm1 == tm, v == 0 ==> tm1 == tm0,
+{
+    assert(s[1] == w[1] && w.take(8)[1] == w[1]);
+    assert(skip_len(s) == 0);
+    assert(s.skip(0) =~= s);
+    assert(!reset_reply(s, 8));
+    lemma_composition(s, w, rest, v, st, items, tm, ver0, ver1, n, log, st1, tm0, tm1);
+}
+
+/// FALLBACK.  The server answers the serial query with a cache reset `cr` (no diff for the client's state) and the
+/// following reset query with a response `w` for the full data set: the step ends with a reset update that
+/// received the full set's items restricted to the version, the state and the timing of that response.
+pub proof fn lemma_composition_fallback(s: Seq<u8>, cr: Seq<u8>, w: Seq<u8>, rest: Seq<u8>, v: u8, st: State, items: Seq<Item>, tm: Timing,
+                                        st0: Option<State>, ver0: Option<u8>, ver1: Option<u8>, n: int, log: Seq<Item>, rs: bool,
+                                        st1: Option<State>, tm0: Timing, tm1: Timing)
+    requires
+        s == cr + (w + rest), is_cache_reset(cr, v), is_response(w, v, st, items, tm), v <= 2, all_wf(items),
+        step_ok(s, st0, ver0, ver1, n, log, rs, st1, tm0, tm1),
+    ensures
+        st0 is Some, rs, ver1 == Some(v), n == 8 + w.len(), log == expected(v, items), st1 == Some(st),
+        v >= 1 ==> tm1 == tm, v == 0 ==> tm1 == tm0,
+{
+    lemma_composition_reset(s, cr, w + rest, v, 8);
+    assert(s[1] == cr[1]);
+    assert(skip_len(s) == 0);
+    assert(s.skip(8) =~= w + rest);
+    lemma_composition(s.skip(8), w, rest, v, st, items, tm, ver0, ver1, n - 8, log, st1, tm0, tm1);
+}
+
+/// the items of a full data set that a version carries, in order
+pub open spec fn supported_items(v: u8, xs: Seq<ItemView>) -> Seq<ItemView>
+    decreases xs.len()
+{
+    if xs.len() == 0 { Seq::<ItemView>::empty() }
+    else { (if supported(v, xs[0]) { seq![xs[0]] } else { Seq::<ItemView>::empty() }) + supported_items(v, xs.drop_first()) }
+}
+/// for a full data set nothing is normalised: the client is handed exactly the announcements of the items the
+/// version carries
+pub proof fn lemma_expected_full(v: u8, xs: Seq<ItemView>)
+    ensures expected(v, announce_all(xs)) == announce_all(supported_items(v, xs)),
+    decreases xs.len(),
+{
+    if xs.len() == 0 {
+        assert(expected(v, announce_all(xs)) =~= announce_all(supported_items(v, xs)));
+    } else {
+        lemma_expected_full(v, xs.drop_first());
+        assert(announce_all(xs).drop_first() =~= announce_all(xs.drop_first()));
+        assert(announce_all(xs)[0] == (Action::Announce, xs[0]));
+        assert(expected(v, announce_all(xs)) =~= announce_all(supported_items(v, xs)));
+    }
+}
+
+// ---- the data-set reading of the property statement (specification only, no code) ------------------------------
+/// a payload set: route origins and router keys are sets, ASPA records are keyed by customer AS
+pub struct Data {
+    pub origins: Set<((int, int, int), u32)>,
+    pub keys: Set<(Seq<u8>, u32, Seq<u8>)>,
+    pub aspas: Map<u32, Seq<u8>>,
+}
+/// applying one announcement / withdrawal, as the property statement reads it
+pub open spec fn apply_item(d: Data, x: Item) -> Data {
+    match x {
+        (Action::Announce, ItemView::Origin { prefix, asn }) => Data { origins: d.origins.insert((prefix, asn)), ..d },
+        (Action::Withdraw, ItemView::Origin { prefix, asn }) => Data { origins: d.origins.remove((prefix, asn)), ..d },
+        (Action::Announce, ItemView::RouterKey { ki, asn, info }) => Data { keys: d.keys.insert((ki, asn, info)), ..d },
+        (Action::Withdraw, ItemView::RouterKey { ki, asn, info }) => Data { keys: d.keys.remove((ki, asn, info)), ..d },
+        (Action::Announce, ItemView::Aspa { customer, providers }) => Data { aspas: d.aspas.insert(customer, providers), ..d },
+        (Action::Withdraw, ItemView::Aspa { customer, providers }) => Data { aspas: d.aspas.remove(customer), ..d },
+    }
+}
+pub open spec fn apply_seq(d: Data, items: Seq<Item>) -> Data
+    decreases items.len()
+{
+    if items.len() == 0 { d } else { apply_seq(apply_item(d, items[0]), items.drop_first()) }
+}
+/// a payload set restricted to the payload types a version carries
+pub open spec fn restrict(v: u8, d: Data) -> Data {
+    Data {
+        origins: d.origins,
+        keys: if v >= 1 { d.keys } else { Set::<(Seq<u8>, u32, Seq<u8>)>::empty() },
+        aspas: if v >= 2 { d.aspas } else { Map::<u32, Seq<u8>>::empty() },
+    }
+}
+pub open spec fn data_eq(a: Data, b: Data) -> bool { a.origins =~= b.origins && a.keys =~= b.keys && a.aspas =~= b.aspas }
+proof fn lemma_restrict_item(v: u8, d: Data, x: Item)
+    ensures data_eq(restrict(v, apply_item(d, x)), if supported(v, x.1) { apply_item(restrict(v, d), normal(x)) } else { restrict(v, d) }),
+{}
+proof fn lemma_apply_seq_eq(a: Data, b: Data, items: Seq<Item>)
+    requires data_eq(a, b),
+    ensures a == b, apply_seq(a, items) == apply_seq(b, items),
+{}
+/// DATA SETS.  What the client hands to its update (`expected`), applied in order to the restriction of a payload
+/// set, is the restriction of what the source's full sequence yields on the unrestricted set: if the target held the
+/// source's set for the client's state (restricted to the version) and the source's diff leads to the set of the
+/// new state, the target holds the new set (restricted) afterwards; with `d` empty and a full data set this is the
+/// reset case.  ASPA withdrawals carry no providers on the client side, which does not matter under customer keys.
+pub proof fn lemma_restrict_apply(v: u8, d: Data, items: Seq<Item>)
+    ensures data_eq(restrict(v, apply_seq(d, items)), apply_seq(restrict(v, d), expected(v, items))),
+    decreases items.len(),
+{
+    if items.len() > 0 {
+        let x = items[0]; let rest = items.drop_first();
+        lemma_restrict_item(v, d, x);
+        lemma_restrict_apply(v, apply_item(d, x), rest);
+        if supported(v, x.1) {
+            let e = expected(v, items);
+            assert(e[0] == normal(x));
+            assert(e.drop_first() =~= expected(v, rest));
+            lemma_apply_seq_eq(restrict(v, apply_item(d, x)), apply_item(restrict(v, d), normal(x)), expected(v, rest));
+        } else {
+            assert(expected(v, items) =~= expected(v, rest));
+            lemma_apply_seq_eq(restrict(v, apply_item(d, x)), restrict(v, d), expected(v, rest));
+        }
+    } else {
+        assert(expected(v, items) =~= Seq::<Item>::empty());
+    }
+}
+
+// ---- vacuity guards ------------------------------------------------------------------------------------------
+/// a concrete version-0 exchange without items: cache response (session 1) ++ end of data (session 1, serial 5).
+/// It is a response in the sense of the server contract, the client's loop function completes on it, and the
+/// client's postcondition for a completed exchange is satisfiable on it.
+pub proof fn reach_exchange(tm: Timing)
+    ensures ({
+        let c = seq![0u8, 3, 0, 1, 0, 0, 0, 8];
+        let e = seq![0u8, 7, 0, 1, 0, 0, 0, 12, 0, 0, 0, 5];
+        let st = State { session: 1, serial: Serial(5) };
+        &&& is_response(c + e, 0, st, Seq::<Item>::empty(), tm)
+        &&& run(e, 0, Seq::<Item>::empty(), 0) == Some((Seq::<Item>::empty(), 12int))
+        &&& exchange_ok(c + e, None, Some(0u8), 20, Seq::<Item>::empty(), Some(st), tm, tm)
+    }),
+{
+    reveal(exchange_ok);
+    let c = seq![0u8, 3, 0, 1, 0, 0, 0, 8];
+    let e = seq![0u8, 7, 0, 1, 0, 0, 0, 12, 0, 0, 0, 5];
+    let w = c + e;
+    assert(w.take(8) =~= c);
+    assert(c.subrange(2, 4) =~= seq![0u8, 1]);
+    assert(c.subrange(4, 8) =~= seq![0u8, 0, 0, 8]);
+    assert(e.take(8).subrange(4, 8) =~= seq![0u8, 0, 0, 12]);
+    assert(e.subrange(2, 4) =~= seq![0u8, 1]);
+    assert(e.subrange(8, 12) =~= seq![0u8, 0, 0, 5]);
+    assert(payload_bytes(0, Seq::<Item>::empty()) =~= Seq::<u8>::empty());
+    assert(w.skip(8) =~= e);
+    assert(w.subrange(8, 8) =~= Seq::<u8>::empty());
+    assert(w.skip(0) =~= w);
+    assert(w.skip(0).skip(8) =~= e);
+    assert(e.subrange(0, 12) =~= e);
+    assert(w.skip(0).take(8) =~= c);
+    assert(skip_len(w) == 0);
+    assert(wire_len(e.take(8)) == 12);
+    xlem::lemma_run_eod(e, 0, Seq::<Item>::empty(), 0);
+}
+/// the negotiation predicate is satisfiable both ways: confirmation of a stored version and downgrade
+pub proof fn reach_negotiated()
+    ensures
+        negotiated(seq![1u8, 3, 0, 1, 0, 0, 0, 8], Some(1u8), 1),
+        negotiated(seq![1u8, 10, 0, 4, 0, 0, 0, 16], None, 1),
+{
+    let a = seq![1u8, 3, 0, 1, 0, 0, 0, 8];
+    let b = seq![1u8, 10, 0, 4, 0, 0, 0, 16];
+    assert(b.take(8).subrange(4, 8) =~= seq![0u8, 0, 0, 16]);
+    assert(b.subrange(2, 4) =~= seq![0u8, 4]);
+}
+} // mod comp
 
 } // verus!
 fn main() {}
